@@ -70,7 +70,28 @@ impl PatProp for SizeFacts {
         if a != b {
             return Prep::Skip("HARNESS:alignment-mismatch");
         }
-        let compiled = match engine::build(pat) {
+        // does some look-behind have a body (or, for a top-level alternation, an alternative) that the
+        // analysis does not judge constant-size? then - and only then - the build must fail with LookBehindNotConst
+        fn must_fail(n: &Node, f: &Facts) -> bool {
+            let here = match n {
+                Look(_, true, _) => {
+                    let body = &f.children[0];
+                    !(body.const_size || (body.kind == "Alt" && body.children.iter().all(|a| a.const_size)))
+                }
+                _ => false,
+            };
+            here || n.children().iter().zip(&f.children).any(|(c, cf)| must_fail(c, cf))
+        }
+        let expect_lb_error = must_fail(&tree, &facts);
+        let built = engine::build(pat);
+        let got_lb_error = matches!(&built, Built::Err(e) if engine::err_kind(e) == "LookBehindNotConst");
+        if expect_lb_error && matches!(built, Built::Ok(_)) {
+            return Prep::Fail(Fail::new("lookbehind-not-rejected", "CompileError::LookBehindNotConst (a look-behind body is not judged constant-size)", "the pattern compiles"));
+        }
+        if got_lb_error && !expect_lb_error {
+            return Prep::Fail(Fail::new("lookbehind-wrongly-rejected", "no LookBehindNotConst error: every look-behind alternative is judged constant-size", "Err(LookBehindNotConst)"));
+        }
+        let compiled = match built {
             Built::Ok(_) => true,
             Built::Err(e) => {
                 st.class(if engine::err_kind(&e) == "LookBehindNotConst" { "build:LookBehindNotConst" } else { "build:other-error" });
@@ -181,7 +202,7 @@ fn lookbehind_products() -> Vec<Node> {
 pub fn run(ctx: &RunCtx) -> Outcome {
     let p = SizeFacts;
     let mut o = Outcome::default();
-    o.rule = "(a) every sub-expression of every pattern of the unrestricted space (exhaustive trees, conditional trees, context x filler products, look-behind products, proptest random ASTs) that parses and analyses: the pattern is re-read through Expr::parse_tree and converted node for node into the reference AST, the instrumented reference matcher records over all texts and offsets the set of character lengths each node matched (in context), and these must respect the analysis facts read through the hook: min(observed) >= min_size, const_size => one observed length - also for patterns the compiler then rejects. (b) look-behind products (fixed / variable / multi-byte / alternated / nested bodies, inside loops) over multi-byte texts at every offset: results equal the reference matcher, or the build fails. Non-trivial (a) = the case contributed a new (node, length) observation for a node with non-zero minimum or constant size. Distinct = distinct (pattern, text, offset).".into();
+    o.rule = "(a) every sub-expression of every pattern of the unrestricted space (exhaustive trees, conditional trees, context x filler products, look-behind products, proptest random ASTs) that parses and analyses: the pattern is re-read through Expr::parse_tree and converted node for node into the reference AST, the instrumented reference matcher records over all texts and offsets the set of character lengths each node matched (in context), and these must respect the analysis facts read through the hook: min(observed) >= min_size, const_size => one observed length - also for patterns the compiler then rejects; and the build fails with LookBehindNotConst exactly when some look-behind body (or, for a top-level alternation, one of its alternatives) is not judged constant-size. (b) look-behind products (fixed / variable / multi-byte / alternated / nested bodies, inside loops) over multi-byte texts at every offset: results equal the reference matcher, or the build fails. Non-trivial (a) = the case contributed a new (node, length) observation for a node with non-zero minimum or constant size. Distinct = distinct (pattern, text, offset).".into();
     o.assumptions = vec!["reference matcher; conversion Expr -> reference AST (harness/src/conv.rs) keeps the tree shape, checked per pattern (alignment mismatches are skipped and counted)".into()];
     o.required_classes = vec!["feature:look-behind".into(), "build:ok".into(), "build:LookBehindNotConst".into(), "observed:compiled-pattern".into(), "observed:rejected-pattern".into()];
     let quick = ctx.quick();
